@@ -248,8 +248,8 @@ def slot_ok(f, slot, names):
     return False
 
 
-def r5_predicates(ctx, prog):
-    r = ctx.rule('C11.R5', 'purge predicates erase exactly the affected handles, object handles leave both maps together', floor=20, engine='E1+E3 finite-domain path enumeration')
+def r5_predicates(ctx, prog, rule_id='C11.R5'):
+    r = ctx.rule(rule_id, 'purge predicates erase exactly the affected handles, object handles leave both maps together', floor=20, engine='E1+E3 finite-domain path enumeration')
     KS, KO = macro(prog, 'CKH_SESSION'), macro(prog, 'CKH_OBJECT')
     SLOT, HS = 7, 41
 
@@ -315,6 +315,26 @@ def r5_predicates(ctx, prog):
                 r.violation(f['qname'], site, 'expected %s of both map entries, the path erases handles:%d objects:%d' % ('erasure' if want else 'no erasure', len(he), len(oe)), file=f['file'], line=bad['line'], path=bad['path'])
             else:
                 r.ok(f['qname'], site, 'as required', file=f['file'], line=f['line'])
+    # SessionObject purge predicates: truth tables over (same slot, same session, private)
+    for fname, want in (('SessionObject::removeOnSessionClose', lambda d: bool(d['samesession'])),
+                        ('SessionObject::removeOnAllSessionsClose', lambda d: bool(d['sameslot'])),
+                        ('SessionObject::removeOnTokenLogout', lambda d: bool(d['sameslot'] and d['private']))):
+        g = prog.fn(fname)
+        ctx.analysed(g)
+        pn = param_name(g, 0)
+        for d in product({'sameslot': [0, 1], 'samesession': [0, 1], 'private': [0, 1]}):
+            cenv = {'slotID': SLOT, 'hSession': HS, 'isPrivate': d['private'], pn: (SLOT if d['sameslot'] else SLOT + 1) if 'Slot' in g['params'][0]['type'].replace('CK_SLOT_ID', 'Slot') else (HS if d['samesession'] else HS + 1)}
+            o = Outcomes(g, prog, cenv=cenv, record_calls={'discardAttributes'}).go()
+            r.paths += len(o.outcomes)
+            got = {oc['retv'] for oc in o.outcomes}
+            inval = [any(e[0] == 'write' and e[1].endswith('valid') and e[2] in ('false', '0') for e in oc['events']) for oc in o.outcomes]
+            site = '%s slot=%d session=%d private=%d' % (fname.split('::')[1], d['sameslot'], d['samesession'], d['private'])
+            w = want(d)
+            if got != {int(w)} or (w and not all(inval)):
+                r.violation(fname, site, 'answers %s, expected %s: %s' % (sorted(map(str, got)), w, 'the session object survives the event that must destroy it (it is found again through a new session)' if w else 'an object that must stay is destroyed'),
+                            file=g['file'], line=g['line'], path=o.outcomes[0]['path'] if o.outcomes else None)
+            else:
+                r.ok(fname, site, 'as required', file=g['file'], line=g['line'])
     # sessionClosed: the session's own handle is erased and the last close purges the slot
     f = prog.fn('HandleManager::sessionClosed')
     o = Outcomes(f, prog, cenv={re.compile(r'operator==\(.*,end\(handles\)\)'): 0, re.compile(r'.*\.kind'): KS, re.compile(r'operator->\(find\(.*\)\)\.second\.slotID'): SLOT,
